@@ -29,7 +29,8 @@ and never re-initialised inside it, and no iteration ends before the restore
 attempt except the documented exits; C07.4 (shared with C03.5) the current
 instance is moved for a renewal only when the renewal really failed; C07.6
 (shared with C08.1) the inactive-server pre-pass takes nothing off an up
-server.
+server. Fourth round: C07.4 the verbatim restore neutralises the lease
+completely (shared with C01.6).
 Does NOT decide the relation between queue order and the before/after
 placements of a whole cycle (a property of the run).
 """
